@@ -40,7 +40,7 @@ META = {
             "plus optional partial word (cs_abort mid-word, also in the middle of a clock period), literal half-periods 1..9 "
             "(uniform or jittered), CS setup 1..6, hold 0..6 after the last clock phase (CS may be released one cycle after the last edge), gap 1..6, word_out changing between words",
 }
-TIERS = {"quick": {"runs": 4000, "wall": 70}, "thorough": {"runs": 45000, "wall": 900}}
+TIERS = {"quick": {"runs": 12000, "wall": 70}, "thorough": {"runs": 45000, "wall": 900}}
 
 STROBE_BOUND = 8
 
